@@ -110,7 +110,12 @@ async fn writer_task<W: tokio::io::AsyncWrite + Unpin>(mut w: W, dir: u8, ops: V
     }
 }
 
-async fn reader_task<R: tokio::io::AsyncRead + Unpin>(mut r: R, dir: u8, bufsizes: Vec<usize>, st: Arc<Mutex<DirState>>, reads_after_end: u32) {
+async fn reader_task<R: tokio::io::AsyncRead + Unpin>(mut r: R, dir: u8, bufsizes: Vec<usize>, st: Arc<Mutex<DirState>>, reads_after_end: u32, lag: u64) {
+    // A lagging reader: it starts only when `lag` bytes have been flushed towards it (a backlog of
+    // many coalesced frames).
+    while st.lock().unwrap().flushed < lag && st.lock().unwrap().writer_err.is_none() {
+        sched_point().await;
+    }
     let mut k = 0;
     let mut after = 0;
     loop {
@@ -189,8 +194,35 @@ pub async fn run_benign(seed: u64, sched: Rc<Sched>, keep_log: bool) -> (CaseRes
             })
             .collect()
     };
-    let ops_a = script(&mut rng);
+    let mut ops_a = script(&mut rng);
     let ops_b = script(&mut rng);
+    // Backlog mode (direction a->b): many small messages, each flushed, pile up in a roomy pipe
+    // before the reader starts: the reader then meets dozens of coalesced frames per transport
+    // read, at every alignment relative to its frame buffer.
+    let mut lag_ab = 0u64;
+    let mut cfg_ab = cfg_ab;
+    if rng.gen_range(0..100) < 12 {
+        // Message sizes: random, or such that the frame size (payload + 2 + 16) divides a number
+        // next to the capacity of the reader's frame buffer (boundary alignment).
+        let k = if rng.gen_bool(0.5) {
+            rng.gen_range(16..300usize)
+        } else {
+            const NEAR: [usize; 5] = [65536, 65537, 65538, 65539, 65540];
+            let fs: Vec<usize> = (34..400usize).filter(|f| NEAR.iter().any(|n| n % f == 0)).collect();
+            fs[rng.gen_range(0..fs.len())] - 18
+        };
+        let total = rng.gen_range(140_000..330_000usize);
+        ops_a = (0..total / k).flat_map(|_| [(0u8, k), (1u8, 0)]).collect();
+        lag_ab = (total / k * k) as u64;
+        cfg_ab.capacity = 1 << 20;
+        cfg_ab.max_write = cfg_ab.max_write.max(64);
+        if rng.gen_bool(0.5) {
+            cfg_ab.max_read = usize::MAX;
+        }
+        pa.tx.lock().unwrap().cfg = cfg_ab.clone();
+        hist.probe("backlog_of_small_frames");
+        hist.note(format!("backlog mode: {} messages of {k} bytes before the reader starts", total / k));
+    }
     let bufs = |rng: &mut rand_chacha::ChaCha8Rng| -> Vec<usize> {
         (0..4).map(|_| [1usize, 2, 17, 1000, 65520, 70_000, 300_000][rng.gen_range(0..7)]).collect()
     };
@@ -200,7 +232,7 @@ pub async fn run_benign(seed: u64, sched: Rc<Sched>, keep_log: bool) -> (CaseRes
     let st_ab: Arc<Mutex<DirState>> = Arc::default();
     let st_ba: Arc<Mutex<DirState>> = Arc::default();
     let release = Arc::new(tokio::sync::Notify::new());
-    let mk = |pipe: SimPipe, server: bool, my_dir: u8, ops: Vec<(u8, usize)>, bufs: Vec<usize>, st_w: Arc<Mutex<DirState>>, st_r: Arc<Mutex<DirState>>, shutdown: bool, root: Arc<ctx::Ctx>, hist: SharedHist<Ev>| {
+    let mk = |pipe: SimPipe, server: bool, my_dir: u8, ops: Vec<(u8, usize)>, bufs: Vec<usize>, st_w: Arc<Mutex<DirState>>, st_r: Arc<Mutex<DirState>>, shutdown: bool, root: Arc<ctx::Ctx>, hist: SharedHist<Ev>, lag: u64| {
         let release = release.clone();
         gtokio::spawn(async move {
             let s = if server { Stream::server_handshake(&root, pipe).await } else { Stream::client_handshake(&root, pipe).await };
@@ -213,13 +245,13 @@ pub async fn run_benign(seed: u64, sched: Rc<Sched>, keep_log: bool) -> (CaseRes
             };
             let (r, w) = tokio::io::split(s);
             let wt = gtokio::spawn(writer_task(w, my_dir, ops, st_w, shutdown, release));
-            let rt = gtokio::spawn(reader_task(r, 1 - my_dir, bufs, st_r, 2));
+            let rt = gtokio::spawn(reader_task(r, 1 - my_dir, bufs, st_r, 2, lag));
             let _ = wt.await;
             let _ = rt.await;
         })
     };
-    let ha = mk(pa, false, 0, ops_a.clone(), bufs_a, st_ab.clone(), st_ba.clone(), shutdown_a, root.clone(), hist.clone());
-    let hb = mk(pb, true, 1, ops_b.clone(), bufs_b, st_ba.clone(), st_ab.clone(), shutdown_b, root.clone(), hist.clone());
+    let ha = mk(pa, false, 0, ops_a.clone(), bufs_a, st_ab.clone(), st_ba.clone(), shutdown_a, root.clone(), hist.clone(), 0);
+    let hb = mk(pb, true, 1, ops_b.clone(), bufs_b, st_ba.clone(), st_ab.clone(), shutdown_b, root.clone(), hist.clone(), lag_ab);
     let mut d = Director::new(seed, sched.clone(), clock.clone());
     d.tick_pct = 0;
     d.max_steps = 3_000_000;
@@ -243,7 +275,20 @@ pub async fn run_benign(seed: u64, sched: Rc<Sched>, keep_log: bool) -> (CaseRes
         .await;
     // Without shutdown the run is over at quiescence (DriveEnd::Stuck): that is expected.
     let quiescent = matches!(end, DriveEnd::Stuck | DriveEnd::Done);
-    let mut harness_error = if quiescent { None } else { Some("step limit".to_string()) };
+    let mut harness_error: Option<String> = None;
+    if !quiescent {
+        // Three million task polls without the session coming to rest: on a transport which only
+        // fragments and delays, a writer or reader is spinning or the two are stuck in a loop.
+        let (a, b) = (st_ab.lock().unwrap(), st_ba.lock().unwrap());
+        hist.violation(
+            "C13",
+            "session_never_comes_to_rest",
+            format!(
+                "after {} scheduler steps the session is still busy: a->b accepted {} flushed {} delivered {}; b->a accepted {} flushed {} delivered {}",
+                d.max_steps, a.accepted, a.flushed, a.received, b.accepted, b.flushed, b.received
+            ),
+        );
+    }
     // Oracles (evaluated on the state at quiescence; afterwards the writers are released so that
     // all tasks end).
     let eval = |hist: &SharedHist<Ev>| {
@@ -350,7 +395,7 @@ pub async fn run_tamper(seed: u64, sched: Rc<Sched>, keep_log: bool, target: usi
                 return;
             };
             let (r, _w) = tokio::io::split(s);
-            reader_task(r, 0, vec![1000, 17, 70_000], st, 3).await;
+            reader_task(r, 0, vec![1000, 17, 70_000], st, 3, 0).await;
         })
     };
     // The relay: forwards b->a untouched; a->b frame by frame with the tampering applied.
